@@ -129,7 +129,7 @@ theorem C15_created_utd (inp : Input) (h : trigB inp = true) (s : Sys) (hr : Rea
     state in which the table entry of every started task is still the object its node holds.  The two differ only
     when a creator re-defines the name of a task that was already handed to execution (`self.tasks[nt.name] = nt`
     has no guard); the old object ran with *its* dependencies (`C15_created_obey`), the new one is never executed
-    (`C15_created_at_most_once`).  A decidable input condition that excludes re-definition is not proved here. -/
+    (`C15_created_at_most_once`).  `C15_created_obey_tasks` below discharges the hypothesis from `noRedefB`. -/
 theorem C15_created_obey_table (inp : Input) (h : trigB inp = true) (s : Sys) (hr : Reach inp s)
     (hsame : ∀ t, Ev.start t ∈ s.events → nodeDeps s t = dynDeps s t) :
     obeyOK (dynDeps s) inp.noAct s.events = true := by
@@ -247,7 +247,10 @@ example : noRedefB (exInput true) = true ∧ trigB (exInput true) = true := by d
 
 /-! ### `noRedefB` is needed: static tasks 3 and 4, selection `[3, 1]`; task 3 runs first, then the creator of
     placeholder 1 (trigger 0) yields a task named 3 that depends on 4.  `tasks[3]` is re-defined after task 3 was
-    executed; over the task table the ordering statement is false, over the node-held objects it holds. -/
+    executed; over the task table the ordering statement is false, over the node-held objects it holds.
+    Replayed on doit (dodo: static t0, t3, t4; `@create_after(executed='t0') task_t1` yielding basenames `t1` and
+    `t3` with `task_dep=['t4']`; `doit run t3 t1`): the static t3 runs, then t0, the creator, t1; the re-defined t3
+    and t4 never run, exit 0 — the model's trace. -/
 
 def exRedef : Input :=
   { tasks0 := [(0, { act := true, oid := 0 }), (1, { deps := [0], loader := some 0, oid := 1 }),
